@@ -83,6 +83,7 @@ type Consensus struct {
 	stateReady  chan struct{}
 	readyCh     chan struct{}
 	batchItemCh chan batchItem
+	batchWg     sync.WaitGroup
 
 	shutdownLock sync.RWMutex
 	shutdown     bool
@@ -315,7 +316,14 @@ func (css *Consensus) setup() {
 			css.config.Batching.MaxBatchSize,
 			css.config.Batching.MaxBatchAge.String(),
 		)
-		go css.batchWorker()
+		// Shutdown() waits for the worker: start it under the lock and
+		// only when Shutdown() has not run already.
+		css.shutdownLock.Lock()
+		if !css.shutdown {
+			css.batchWg.Add(1)
+			go css.batchWorker()
+		}
+		css.shutdownLock.Unlock()
 	}
 
 	// notifies State() it is safe to return
@@ -335,6 +343,12 @@ func (css *Consensus) Shutdown(ctx context.Context) error {
 	}
 
 	logger.Info("stopping Consensus component")
+
+	// Let the batch worker take and commit everything that has been
+	// accepted (nobody is sending: LogPin/LogUnpin hold the read lock)
+	// while the datastore and the context are still usable.
+	close(css.batchItemCh)
+	css.batchWg.Wait()
 
 	css.cancel()
 
@@ -424,16 +438,10 @@ func (css *Consensus) LogPin(ctx context.Context, pin *api.Pin) error {
 			return err
 		}
 
-		select {
-		case css.batchItemCh <- batchItem{
-			ctx:   ctx,
-			isPin: true,
-			pin:   pin,
-		}:
-			return nil
-		default:
-			return fmt.Errorf("error pinning: %w", ErrMaxQueueSizeReached)
+		if err := css.enqueue(batchItem{ctx: ctx, isPin: true, pin: pin}); err != nil {
+			return fmt.Errorf("error pinning: %w", err)
 		}
+		return nil
 	}
 
 	return css.state.Add(ctx, pin)
@@ -445,23 +453,36 @@ func (css *Consensus) LogUnpin(ctx context.Context, pin *api.Pin) error {
 	defer span.End()
 
 	if css.config.batchingEnabled() {
-		select {
-		case css.batchItemCh <- batchItem{
-			ctx:   ctx,
-			isPin: false,
-			pin:   pin,
-		}:
-			return nil
-		default:
-			return fmt.Errorf("error unpinning: %w", ErrMaxQueueSizeReached)
+		if err := css.enqueue(batchItem{ctx: ctx, isPin: false, pin: pin}); err != nil {
+			return fmt.Errorf("error unpinning: %w", err)
 		}
+		return nil
 	}
 
 	return css.state.Rm(ctx, pin.Cid)
 }
 
+// enqueue hands an operation to the batch worker. Once Shutdown() has
+// started nobody will take it from the queue any more: it is refused.
+func (css *Consensus) enqueue(item batchItem) error {
+	css.shutdownLock.RLock()
+	defer css.shutdownLock.RUnlock()
+	if css.shutdown {
+		return errors.New("consensus component is shut down")
+	}
+
+	select {
+	case css.batchItemCh <- item:
+		return nil
+	default:
+		return ErrMaxQueueSizeReached
+	}
+}
+
 // Launched in setup as a goroutine.
 func (css *Consensus) batchWorker() {
+	defer css.batchWg.Done()
+
 	maxSize := css.config.Batching.MaxBatchSize
 	maxAge := css.config.Batching.MaxBatchAge
 	batchCurSize := 0
@@ -476,7 +497,18 @@ func (css *Consensus) batchWorker() {
 		select {
 		case <-css.ctx.Done():
 			return
-		case batchItem := <-css.batchItemCh:
+		case batchItem, ok := <-css.batchItemCh:
+			// Shutdown() closed the queue and everything in it has
+			// been taken: commit what is in the batch and finish.
+			if !ok {
+				if batchCurSize > 0 {
+					if err := css.batchingState.Commit(css.ctx); err != nil {
+						logger.Errorf("error commiting batch on shutdown: %s", err)
+					}
+				}
+				return
+			}
+
 			// First item in batch. Start the timer
 			if batchCurSize == 0 {
 				batchTimer.Reset(maxAge)
